@@ -545,7 +545,7 @@ def check_scheme(ctx, lib, c):
 # ---- object-less wrappers of wkdibe.h / lqibe.h: samplers, hash reduction, length functions --------------------------------
 @st.composite
 def misc_cases(draw):
-    what = draw(st.sampled_from(("hash_reduce", "zpstar", "random_g1", "random_g2", "random_gt", "fixed_length", "length_formula")))
+    what = draw(st.sampled_from(("hash_reduce", "zpstar", "random_g1", "random_g2", "random_gt", "fixed_length", "length_formula", "set_length", "set_length")))
     c = {"what": what, "stream": draw(st.binary(min_size=0, max_size=64)), "seed": draw(st.integers(0, 2**32))}
     if what == "hash_reduce":
         c["v"] = draw(gens.scalars(256))[1]
@@ -553,6 +553,10 @@ def misc_cases(draw):
         c["kind"], c["comp"] = draw(st.sampled_from((1, 3, 4))), draw(st.booleans())
     elif what == "length_formula":
         c["kind"], c["comp"], c["sigs"], c["l"] = draw(st.sampled_from((0, 2))), draw(st.booleans()), draw(st.booleans()), draw(st.integers(0, 300))
+    elif what == "set_length":
+        # length discovery on a receiving object that already holds a slot count: buffer lengths on and off the grid
+        c["kind"], c["comp"], c["first"] = draw(st.sampled_from((0, 2))), draw(st.booleans()), draw(st.sampled_from((0, 1, 255)))
+        c["n"] = draw(st.one_of(st.integers(1, 1500), st.sampled_from((145, 177, 193, 289, 321, 369, 385, 609, 705))))
     return c
 
 
@@ -563,6 +567,20 @@ def check_misc(ctx, lib, c):
     for cpp in (0, 1):
         d.vf_set_use_cpp(cpp)
         try:
+            if what == "set_length":
+                from .. import wk as wkmod
+                W = wkmod.WK(lib)
+                try:
+                    obj = W.params_new(3) if c["kind"] == 0 else W.sk_new(3)
+                    buf = W.buf(c["n"])
+                    ctypes.memset(buf, 0, c["n"])
+                    ctypes.memset(buf, c["first"], 1)
+                    f = lib.fn("vf_wk_length_from", ctypes.c_long, [ctypes.c_int, ctypes.c_void_p, ctypes.c_void_p, ctypes.c_size_t, ctypes.c_int, ctypes.c_int])
+                    rv = f(c["kind"], obj, buf, c["n"], 1 if c["comp"] else 0, 0)
+                    outs.append((rv, W.get(c["kind"], obj, 7 if c["kind"] == 0 else 2)))
+                finally:
+                    W.close()
+                continue
             if what in ("fixed_length", "length_formula"):
                 if what == "fixed_length":
                     f = lib.fn("vf_wk_fixed_length", ctypes.c_long, [ctypes.c_int, ctypes.c_int])
